@@ -2,26 +2,19 @@
  * memory makes cbmc fall over; allocation stubs hand out typed static objects selected by size) */
 #include "myth_tls_func.h"
 #include "verif_a.h"
-typedef struct { int type; myth_tls_entry_t entries[myth_tls_tree_node_n_entries_in_leaf]; } leaf_t;
+/* with the struct-hack patch of engines/vlib.py both node kinds have the same (leaf) size: one typed pool */
 #ifndef NPOOL
-#define NPOOL 7
+#define NPOOL 10
 #endif
-#ifndef LPOOL
-#define LPOOL 3
-#endif
-static myth_tls_tree_node_t NP0, NP1, NP2, NP3, NP4, NP5, NP6, NP7, NP8, NP9;
-static leaf_t LP0, LP1, LP2, LP3, LP4, LP5;
-static int np, lp; static int freed_nodes, freed_leaves; static int free_count[16];
+static myth_tls_tree_node_t NP0, NP1, NP2, NP3, NP4, NP5, NP6, NP7, NP8, NP9, NP10, NP11, NP12, NP13;
+static int np; static int free_count[16];
 void *real_malloc(size_t s){
-  if (s == myth_tls_tree_node_sz_node) { int i = np++; __CPROVER_assert(i < NPOOL, "VERIF harness pool of internal nodes large enough");
-    return i==0?&NP0:i==1?&NP1:i==2?&NP2:i==3?&NP3:i==4?&NP4:i==5?&NP5:i==6?&NP6:i==7?&NP7:i==8?&NP8:&NP9; }
-  if (s == myth_tls_tree_node_sz_leaf) { int i = lp++; __CPROVER_assert(i < LPOOL, "VERIF harness pool of leaves large enough");
-    return i==0?(void*)&LP0:i==1?(void*)&LP1:i==2?(void*)&LP2:i==3?(void*)&LP3:i==4?(void*)&LP4:(void*)&LP5; }
+  if (s == myth_tls_tree_node_sz_node || s == myth_tls_tree_node_sz_leaf) { int i = np++; __CPROVER_assert(i < NPOOL && i < 14, "VERIF harness node pool large enough");
+    return i==0?&NP0:i==1?&NP1:i==2?&NP2:i==3?&NP3:i==4?&NP4:i==5?&NP5:i==6?&NP6:i==7?&NP7:i==8?&NP8:i==9?&NP9:i==10?&NP10:i==11?&NP11:i==12?&NP12:&NP13; }
   __CPROVER_assert(0, "VERIF unexpected allocation size in the TLS tree"); return 0;
 }
 static int pool_index(void *p){
-  return p==&NP0?0:p==&NP1?1:p==&NP2?2:p==&NP3?3:p==&NP4?4:p==&NP5?5:p==&NP6?6:p==&NP7?7:p==&NP8?8:p==&NP9?9:
-         p==(void*)&LP0?10:p==(void*)&LP1?11:p==(void*)&LP2?12:p==(void*)&LP3?13:p==(void*)&LP4?14:p==(void*)&LP5?15:-1;
+  return p==&NP0?0:p==&NP1?1:p==&NP2?2:p==&NP3?3:p==&NP4?4:p==&NP5?5:p==&NP6?6:p==&NP7?7:p==&NP8?8:p==&NP9?9:p==&NP10?10:p==&NP11?11:p==&NP12?12:p==&NP13?13:-1;
 }
 void real_free(void *p){
   int i = pool_index(p);
